@@ -833,12 +833,18 @@ func TestFreshRegistryReads(t *testing.T) {
 		var wg sync.WaitGroup
 		var stop atomic.Bool
 		var running sync.WaitGroup
-		panics := make(chan string, 8)
+		panics := make(chan string, 16)
 		for li := range loopers {
 			wg.Add(1)
 			running.Add(1)
 			go func(li int) {
 				defer wg.Done()
+				signalled := false
+				defer func() {
+					if !signalled {
+						running.Done() // a reader that panicked must not keep the first callers waiting
+					}
+				}()
 				defer func() {
 					if r := recover(); r != nil {
 						panics <- fmt.Sprint(r)
@@ -847,6 +853,7 @@ func TestFreshRegistryReads(t *testing.T) {
 				f := loopers[(li+round)%len(loopers)]
 				f(reg)
 				running.Done()
+				signalled = true
 				for i := 0; i < 400 && !stop.Load(); i++ {
 					f(reg)
 				}
